@@ -12,7 +12,7 @@ ENTRIES = ("h_c08",)
 VALIDATE = False   # sym_deep_equal is an engine primitive; the native twin cannot confirm content comparisons
 ENGINE_ONLY_AIDS = ("C08-content",)
 BOUNDS = {
-    "quick": {"block_types": "all registered", "version": "symbolic", "count_cap_B": 1, "input_bytes_L": 256, "budget_s_per_type": 10},
+    "quick": {"block_types": "all registered", "version": "symbolic", "count_cap_B": 1, "input_bytes_L": 256, "budget_s_per_type": 14},
     "thorough": {"block_types": "all registered", "version": "symbolic, 3 version classes", "count_cap_B": 2, "input_bytes_L": 512, "budget_s_per_type": 150},
 }
 ASSUMPTIONS = [
@@ -43,7 +43,7 @@ def owns_violation(v):
 
 
 def jobs(tier, seed):
-    return fblock.jobs_for("h_c08", tier, seed, budget_quick=10, budget_thorough=150)
+    return fblock.jobs_for("h_c08", tier, seed, budget_quick=14, budget_thorough=150)
 
 
 def signature(job, v):
